@@ -3,6 +3,7 @@
 #include "gen.h"
 
 #include <algorithm>
+#include <functional>
 #include <sstream>
 
 namespace sim {
@@ -209,7 +210,7 @@ std::string system_text(const Model& m)
         os << i.name;
         if (!i.free_params.empty())
             os << "(" << join_params(i.free_params) << ")";
-        os << " = " << i.templ << "(";
+        os << " = " << (i.base.empty() ? i.templ : i.base) << "(";
         for (size_t a = 0; a < i.args.size(); ++a)
             os << (a ? ", " : "") << i.args[a].text;
         os << ");\n";
@@ -511,19 +512,36 @@ std::string expected_summary(const Model& m, bool)
                 os << "  #" << i << " " << t->params[i].name << " = <unbound>\n";
             continue;
         }
+        // parameter list of a (possibly chained) instance: its own free parameters first, then the list of what it
+        // instantiates with that one's free parameters bound, in order, to this instance's arguments
+        std::function<std::vector<std::pair<std::string, std::string>>(const MInst&)> plist = [&](const MInst& x) {
+            std::vector<std::pair<std::string, std::string>> r;
+            for (auto& fp : x.free_params)
+                r.emplace_back(fp.name, "<unbound>");
+            auto bind = [](const MArg& a) { return a.tag ? tagstr({a.tag}) : "{}" + a.ident; };
+            if (x.base.empty()) {
+                for (size_t i = 0; i < t->params.size(); ++i)
+                    r.emplace_back(t->params[i].name, bind(x.args[i]));
+            } else {
+                const MInst* b = nullptr;
+                for (auto& i : m.insts)
+                    if (i.name == x.base)
+                        b = &i;
+                auto inner = plist(*b);
+                size_t k = 0;
+                for (auto& e : inner) {
+                    if (e.second == "<unbound>" && k < x.args.size())
+                        e.second = bind(x.args[k++]);
+                    r.push_back(e);
+                }
+            }
+            return r;
+        };
+        auto pl = plist(*in);
         os << "process " << s << " of " << t->name << " unbound=" << in->free_params.size() << "\n";
         size_t k = 0;
-        for (auto& fp : in->free_params)
-            os << "  #" << k++ << " " << fp.name << " = <unbound>\n";
-        for (size_t i = 0; i < t->params.size(); ++i) {
-            os << "  #" << k++ << " " << t->params[i].name << " = ";
-            auto& a = in->args[i];
-            if (a.tag)
-                os << tagstr({a.tag});
-            else
-                os << "{}" << a.ident;
-            os << "\n";
-        }
+        for (auto& e : pl)
+            os << "  #" << k++ << " " << e.first << " = " << e.second << "\n";
     }
     return os.str();
 }
